@@ -237,11 +237,13 @@ static uint64_t run_case(const Case& c, Base& base, Stats& st) {
 		if (!last) continue;
 
 		uint64_t h = canon_hash(nif, sh, &s1);
-		g_unit_states.insert(h);
+		uint64_t hk = vf::fnv(vf::strf("%d/%u/%d", c.V, c.mask, (int) c.reloaded), h);
+		bool fresh_state = g_unit_states.insert(hk).second;
 		SkinBlocks sk = skin_blocks(nif, sh);
 		st.distinct("outcomes", vf::strf("nv%u nt%u parts%d ret%d", s1.nv, ntri_now, sk.part ? (int) sk.part->partitions.size() : -1, (int) ret));
 
-		// save raw, reload, same geometry
+		// save raw, reload, same geometry: a function of the state, evaluated once per distinct state of a construction
+		if (!fresh_state && !c.file && !g_check_all_steps) return h;
 		std::string bytes = save_raw(nif);
 		if (bytes.empty()) { V("save-fails", "Save returns an error after the deletion"); return h; }
 		NifFile r;
@@ -288,6 +290,7 @@ struct Unit {
 	std::string fname;
 	int shapeIdx = 0;
 	std::vector<std::vector<uint16_t>> sets; // file units: the deletion sets of this chunk
+	bool singles2 = false;					 // second deletion restricted to singletons
 };
 
 static std::vector<Spec> all_specs() {
@@ -357,6 +360,7 @@ static void run_unit(const Unit& u, const std::vector<std::string>& skips, Stats
 				if (!one(c, base)) { complete = false; break; }
 				int rest = u.V - (int) S1.size();
 				for (uint32_t s2 = 1; s2 < (1u << rest); s2++) {
+					if (u.singles2 && (s2 & (s2 - 1))) continue;
 					c.dels = {S1, subset_of(s2, rest)};
 					if (!one(c, base)) { complete = false; break; }
 				}
@@ -384,6 +388,7 @@ int main(int argc, char** argv) {
 	}
 	const bool thorough = A.thorough();
 	const int vmax = (int) A.geti("vmax", thorough ? 6 : 5);
+	const int vmax_reloaded = (int) A.geti("vmaxreloaded", 5);
 	const bool with_files = A.geti("files", 1) != 0, with_built = A.geti("built", 1) != 0;
 
 	std::vector<Unit> units;
@@ -398,10 +403,12 @@ int main(int argc, char** argv) {
 		for (int V = vmax; V >= 3; V--)
 			for (auto& sp : specs)
 				for (int origin = 0; origin < 2; origin++) {
+					if (origin == 1 && V > vmax_reloaded) continue;
 					uint32_t nm = 1u << pool_size(sp, V);
 					for (uint32_t lo = 0; lo < nm; lo += 8) {
 						Unit u;
 						u.spec = sp; u.reloaded = origin; u.V = V; u.mask_lo = lo; u.mask_hi = std::min(nm, lo + 8);
+						u.singles2 = origin == 1 && !thorough;
 						units.push_back(u);
 					}
 				}
